@@ -137,15 +137,30 @@ class Parser:
             if self.peek(UNL_MAG):
                 self.eat(UNL_MAG)
                 m, unknown = {}, True
+            elif self.peek("(" + UNL_MAG + " / "):
+                # rational scale whose numerator has no digit form (above 2^64-1): "((UNLABELED SCALE FACTOR) / D)"
+                self.eat("(" + UNL_MAG + " / ")
+                dd = self.integer()
+                self.eat(")")
+                if dd <= 1:
+                    raise ParseError("bad rational scale in %r" % self.s)
+                m, unknown = {}, True
             elif self.peek("("):
                 self.eat("(")
                 n = self.integer()
                 self.eat(" / ")
-                dd = self.integer()
-                self.eat(")")
-                if n <= 0 or dd <= 1:
-                    raise ParseError("bad rational scale in %r" % self.s)
-                m = model.mag_ratio(n, dd)
+                if self.peek(UNL_MAG + ")"):
+                    # denominator without a digit form: "(N / (UNLABELED SCALE FACTOR))"
+                    self.eat(UNL_MAG + ")")
+                    if n <= 0:
+                        raise ParseError("bad rational scale in %r" % self.s)
+                    m, unknown = {}, True
+                else:
+                    dd = self.integer()
+                    self.eat(")")
+                    if n <= 0 or dd <= 1:
+                        raise ParseError("bad rational scale in %r" % self.s)
+                    m = model.mag_ratio(n, dd)
             else:
                 n = self.integer()
                 if n <= 0:
